@@ -24,6 +24,7 @@ import (
 	"go.uber.org/zap"
 
 	"github.com/mimiro-io/datahub/internal/conf"
+	"github.com/mimiro-io/datahub/internal/service/types"
 	"github.com/mimiro-io/datahub/internal/verifhook"
 )
 
@@ -57,6 +58,10 @@ type VerifC13Conc struct {
 	// introduces a stream of other namespaces, then K goroutines introduce K DIFFERENT new namespaces
 	K      int `json:"k"`
 	Rounds int `json:"rounds"`
+	// before the rounds: Resolvers goroutines resolve namespaces through BadgerAccess (the adaptor behind
+	// entity.Lookup / POST /query by full URI) while Grow new namespaces are introduced
+	Resolvers int `json:"resolvers"`
+	Grow      int `json:"grow"`
 }
 
 // VerifC13HTTPGet is set by the driver's main package: a GET through the real handlers of internal/web.
@@ -618,6 +623,19 @@ func verifC13ConcParent(c VerifC13Case, dir string) VerifC13Obs {
 		// the live map is read by a serialiser while an asserter writes it: either Go's detector fires
 		// ("fatal error: concurrent map ...") or encoding/json's map encoder trips over the map that grew
 		// under it (index out of range in mapEncoder.encode)
+		if c.Conc.Rounds > 0 && strings.Contains(e, "concurrent map") {
+			// the burst workload has no context readers: a concurrent-map death here is an unlocked access to the
+			// manager's own maps, never the (recorded) live-context alias
+			i := strings.Index(e, "fatal error")
+			if i < 0 {
+				i = 0
+			}
+			j := i + 300
+			if j > len(e) {
+				j = len(e)
+			}
+			return VerifC13Obs{Outcome: "ok", Conc: "died-map-burst", Detail: strings.TrimSpace(e[i:j])}
+		}
 		if strings.Contains(e, "concurrent map") || strings.Contains(e, "encoding/json.mapEncoder.encode") {
 			i := strings.Index(e, "fatal error")
 			if i < 0 {
@@ -820,6 +838,38 @@ func verifC13BurstChild(c VerifC13Case, dir string) {
 			}
 		}
 		mu.Unlock()
+	}
+	if c.Conc.Resolvers > 0 {
+		ba := NewBadgerAccess(s, dsm)
+		stopR := make(chan struct{})
+		var rg sync.WaitGroup
+		for i := 0; i < c.Conc.Resolvers; i++ {
+			rg.Add(1)
+			go func() {
+				defer rg.Done()
+				for {
+					select {
+					case <-stopR:
+						return
+					default:
+					}
+					if p, err := ba.LookupExpansionPrefix(types.URI("http://data.mimiro.io/core/dataset/")); err != nil || string(p) != "ns0" {
+						fail(fmt.Sprintf("LookupExpansionPrefix(core dataset namespace) = %q, %v", p, err))
+						return
+					}
+					if e, err := ba.LookupNamespaceExpansion(types.Prefix("ns1")); err != nil || string(e) != "http://data.mimiro.io/core/" {
+						fail(fmt.Sprintf("LookupNamespaceExpansion(ns1) = %q, %v", e, err))
+						return
+					}
+				}
+			}()
+		}
+		for n := 0; n < c.Conc.Grow; n++ {
+			exp := fmt.Sprintf("http://burst.example/grow/%d/", n)
+			compact(exp+"x", exp)
+		}
+		close(stopR)
+		rg.Wait()
 	}
 	bgN := 0
 	for r := 0; r < c.Conc.Rounds && len(bad) == 0; r++ {
